@@ -219,7 +219,13 @@ impl Index for HnswIndex {
 
         // For Manhattan, request more candidates since L2 ordering != L1 ordering.
         // Reranking from a larger candidate set improves recall.
-        let search_k = if is_manhattan { k * 4 } else { k };
+        // Never fewer than the search breadth, so that a store no larger than
+        // `ef` is reranked as a whole and the L1 answer is exact.
+        let search_k = if is_manhattan {
+            (k * 4).max(ef_search)
+        } else {
+            k
+        };
         // Deleted ids stay in the graph until the next rebuild: fetch that many
         // extra candidates and drop the tombstoned ones below.
         let tombstones = self.tombstones.read();
